@@ -61,4 +61,51 @@ func (*paragraphParser).Open
 func (*paragraphParser).Continue
   requires text.rdOK(reader) && text.rdLive(reader) && isBlockNode(node)
   ensures [line] lineKept(reader)
+
+// ======== attribute blocks `{#id .class key=value}` (C01): the cursor model stays intact, nothing indexes out of range ====
+macro savedOK(reader, l, p) = text.rdPosOK(reader, l, p.Start, p.Stop, p.Padding, p.ForceNewline)
+func Attributes.findUpdate
+  purefunc cb
+  modifies contents(as)
+func ParseAttributes$1
+  modifies nothing
+func ParseAttributes
+  requires text.rdOK(reader)
+  ensures text.rdOK(reader)
+  modifies text.rdRep, text.rdLive, text.rdLine, text.rdStart, text.rdStop, text.rdPad, text.rdRem, byteSink
+  loop 0 inv text.rdOK(reader) && savedOK(reader, savedLine, savedPosition) && fresh(attrs)
+func parseAttribute
+  requires text.rdOK(reader)
+  ensures text.rdOK(reader)
+  modifies text.rdRep, text.rdLive, text.rdLine, text.rdStart, text.rdStop, text.rdPad, text.rdRem, byteSink
+  loop 0 inv 0 <= i && i <= len(line)
+  loop 1 inv 0 <= i && i <= len(line)
+func parseAttributeValue
+  requires text.rdOK(reader)
+  ensures text.rdOK(reader)
+  modifies text.rdRep, text.rdLive, text.rdLine, text.rdStart, text.rdStop, text.rdPad, text.rdRem, byteSink
+func parseAttributeArray
+  requires text.rdOK(reader) && text.rdLive(reader)
+  ensures text.rdOK(reader)
+  modifies text.rdRep, text.rdLive, text.rdLine, text.rdStart, text.rdStop, text.rdPad, text.rdRem, byteSink
+  loop 0 inv text.rdOK(reader) && fresh(ret)
+func parseAttributeString
+  requires text.rdOK(reader) && text.rdLive(reader)
+  ensures text.rdOK(reader)
+  modifies text.rdRep, text.rdLive, text.rdLine, text.rdStart, text.rdStop, text.rdPad, text.rdRem, byteSink
+  loop 0 inv 0 <= i && i <= l && l == len(line) && text.rdOK(reader) && (line != nil ==> (text.rdLive(reader) && len(line) == text.rdLen(reader)))
+func scanAttributeDecimal
+  requires text.rdOK(reader)
+  ensures text.rdOK(reader)
+  modifies text.rdRep, text.rdLive, text.rdLine, text.rdStart, text.rdStop, text.rdPad, text.rdRem, byteSink
+  loop 0 inv text.rdOK(reader)
+func parseAttributeNumber
+  requires text.rdOK(reader)
+  ensures text.rdOK(reader)
+  modifies text.rdRep, text.rdLive, text.rdLine, text.rdStart, text.rdStop, text.rdPad, text.rdRem, byteSink
+func parseAttributeOthers
+  requires text.rdOK(reader) && text.rdLive(reader)
+  ensures text.rdOK(reader)
+  modifies text.rdRep, text.rdLive, text.rdLine, text.rdStart, text.rdStop, text.rdPad, text.rdRem, byteSink
+  loop 0 inv 0 <= i && i <= len(line)
 @*/
